@@ -123,11 +123,14 @@ Definition jdiv (a b : jet A) : jet A :=
   jdy a b (div N x y) (div N (one N) y) (div N (neg N x) (mul N y y)) (div N m1 (mul N y y))
       (zero N) (div N (mul N two x) (mul N (mul N y y) y)).
 Definition jneg (a : jet A) : jet A := jmon a (neg N (jv a)) m1 (zero N).
-(* Abs: switch a.Sign() { -1: Neg(a) ; 0: Reset() ; 1: Set(a) } *)
+(* Real64.Abs: switch a.Sign() { -1: Neg(a) ; 0: Reset() ; 1: Set(a) }.  NOT the carrier's [nabs]:
+   the modelled algorithms never call Scalar.Abs, every absolute value they take is
+   math.Abs(x.GetFloat64()) (pivot search, running maxima of forcepd) - a plain float: [jabsf] *)
 Definition jabs (a : jet A) : jet A :=
   if ltb N (jv a) (zero N) then jneg a
   else if ltb N (zero N) (jv a) then a
   else jconst (zero N).
+Definition jabsf (a : jet A) : jet A := jconst (nabs N (jv a)).
 (* Sqrt(a) = Pow(a, ConstFloat64(0.5)): monadicLazy(a, Pow(x,y), Pow(x,y-1)*y, Pow(x,y-2)*(y-1)*y) *)
 Definition jsqrt (a : jet A) : jet A :=
   let x := jv a in
@@ -142,7 +145,7 @@ Definition jset (a : jet A) : jet A := a.
 Definition jsetf (v : A) : jet A := jconst v.
 
 Definition NumJ : Num (jet A) :=
-  mkNum (jet A) (jconst (zero N)) (jconst (one N)) jadd jsub jmul jdiv jneg jabs jsqrt
+  mkNum (jet A) (jconst (zero N)) (jconst (one N)) jadd jsub jmul jdiv jneg jabsf jsqrt
         (fun a b => ltb N (jv a) (jv b)) (fun a b => leb N (jv a) (jv b)) (fun a b => eqb N (jv a) (jv b))
         (fun z => jconst (of_Z N z)) (fun a => is_nan N (jv a)).
 (* math.Max / math.Inf only occur on GetFloat64() values followed by SetFloat64 (cholesky_ldl_forcepd) *)
@@ -270,7 +273,7 @@ Definition p_mdotm (n m1 m : nat) : prog := fun A X lg inp =>
   Some (concat (mdotm (nx X) m1 m (chunk m1 n inp) (chunk m m1 (skipn (n * m1) inp)))).
 (* the remaining direct routines of C05 *)
 Definition p_gs (n m : nat) : prog := fun A X lg inp =>
-  let r := M5.gram_schmidt X (chunk m n inp) in Some (concat (fst r) ++ concat (snd r)).
+  let r := M5.gram_schmidt2 X (chunk m n inp) in Some (concat (fst r) ++ concat (snd r)).
 Definition p_hess (n : nat) : prog := fun A X lg inp =>
   let r := M5.hessenberg X true true (chunk n n inp) in
   Some (concat (fst r) ++ match snd r with Some U => concat U | None => [] end).
@@ -279,12 +282,27 @@ Definition p_house : prog := fun A X lg inp =>
 Definition p_givens : prog := fun A X lg inp =>
   let r := M5.givens X (nth 0 inp (zero (nx X))) (nth 1 inp (zero (nx X))) in Some [fst r; snd r].
 Definition p_tridiag (n : nat) : prog := fun A X lg inp =>
-  let r := M5.tridiag X true (chunk n n inp) in
+  let r := M5.tridiag2 X true (chunk n n inp) in
   Some (concat (fst r) ++ match snd r with Some U => concat U | None => [] end).
 Definition p_bidiag (m n : nat) : prog := fun A X lg inp =>
-  let r := M5.bidiag X true true (chunk n m inp) in
+  let r := M5.bidiag2 X true true (chunk n m inp) in
   Some (concat (fst (fst r)) ++ match snd (fst r) with Some U => concat U | None => [] end
                              ++ match snd r with Some V => concat V | None => [] end).
+
+(* cholesky_ldl_forcepd (excluded from the derivative theorems, see Props): the two literals 1e-20
+   of the source are the first two inputs *)
+Definition p_fpd (n : nat) : prog := fun A X lg inp =>
+  match M5.cholesky_ldl_forcepd X (nth 0 inp (zero (nx X))) (nth 1 inp (zero (nx X))) (chunk n n (skipn 2 inp)) with
+  | Some (L, Dm) => Some (concat L ++ concat Dm) | None => None end.
+
+(* operations through which a derivative is dropped (value read by GetFloat64, written by SetFloat64) *)
+Fixpoint lossy (e : expr) : bool :=
+  match e with
+  | Var _ | Cst _ => false
+  | EAdd a b | ESub a b | EMul a b | EDiv a b => lossy a || lossy b
+  | ENeg a | ESqrt a | ELog a => lossy a
+  | EAbs _ | EMax _ _ | ENegInf => true
+  end.
 
 (* inputs of a program: which entries are variables (Some i) and which constants *)
 Definition spec := list (option nat * R).
